@@ -228,6 +228,27 @@ func (e *Engine) findFunction(key string) *ssa.Function {
 	return nil
 }
 
+// findFunctionFor resolves the function a contract is verified on: the named instantiation of a
+// generic function when the contract asks for one, the function (or generic origin) otherwise.
+func (e *Engine) findFunctionFor(fc *FuncContract) *ssa.Function {
+	if fc.Inst == "" {
+		return e.findFunction(fc.Key)
+	}
+	var best *ssa.Function
+	for fn := range ssautil.AllFunctions(e.prog) {
+		if fn.Origin() == nil || len(fn.Blocks) == 0 || fn.Synthetic != "" && !strings.Contains(fn.Synthetic, "instance") {
+			continue
+		}
+		s := fn.String()
+		if stripTypeParams(s) == fc.Key && strings.Contains(s[strings.Index(s, "["):], fc.Inst) {
+			if best == nil || s < best.String() {
+				best = fn
+			}
+		}
+	}
+	return best
+}
+
 func stripTypeParams(s string) string {
 	var b strings.Builder
 	depth := 0
